@@ -86,6 +86,11 @@ var hostiles = []hostile{
 // childMain: what the re-executed binary does
 func childMain(spec string) {
 	parts := strings.Split(spec, ",")
+	if parts[0] == "sweep" {
+		start, _ := strconv.Atoi(parts[2])
+		sweepChild(parts[1], start)
+		return
+	}
 	n, _ := strconv.Atoi(parts[2])
 	def := hostileDefinition(hostile{format: parts[0], kind: parts[1], n: n})
 	out, err := migrations.MigrateToLatest(def, legacyCfg)
